@@ -71,6 +71,7 @@ type C09Scenario struct {
 	RowLatUs  int64   `json:"row_latency_us"`
 	Sched     []byte  `json:"sched"`
 	SchedSeed uint64  `json:"sched_seed"`
+	Preempt   int64   `json:"preempt,omitempty"` // see simrt.SetPreempt
 }
 
 type catLine struct {
@@ -615,6 +616,7 @@ func genC09(rt *rapid.T) C09Scenario {
 	s.RowLatUs = rapid.SampledFrom([]int64{0, 0, 3, 700}).Draw(rt, "rowlat")
 	s.Sched = rapid.SliceOfN(rapid.Byte(), 0, 16).Draw(rt, "sched")
 	s.SchedSeed = rapid.Uint64().Draw(rt, "schedseed")
+	s.Preempt = rapid.SampledFrom([]int64{0, 0, 5, 40, 400}).Draw(rt, "preempt")
 	return s
 }
 
@@ -711,6 +713,8 @@ func c09body(ri *simcheck.RunInfo, s C09Scenario) {
 		}
 	}
 	sim := simrt.New(s.Sched, s.SchedSeed)
+	sim.SetPreempt(s.Preempt, s.SchedSeed)
+	sim.MaxSpin = maxSpin
 	defer sim.Close()
 	st := &runState{s: Scenario{}}
 	st.db = sqlfake.NewDB(nil)
@@ -740,6 +744,12 @@ func c09body(ri *simcheck.RunInfo, s C09Scenario) {
 	fmt.Fprintf(h, "%s|%x|%d", req.Query, sim.TraceHash(), len(served))
 	ri.Hash = h.Sum64()
 	ri.Steps = sim.Steps
+	if sim.Preempts > 0 {
+		ri.Faults["sched-preempt-between-sync-ops"] += int(sim.Preempts)
+	}
+	if sim.Resumes > 0 {
+		ri.Probes["woke-outside-the-baton-and-requeued"] += int(sim.Resumes)
+	}
 	ri.SimNanos = int64(time.Since(t0))
 	ri.NonTrivial = len(served) > 0
 	ri.Probes["served-rows"] += len(served)
